@@ -316,10 +316,29 @@ def _epilogue_trim(ctx, kernels, rule) -> List[Ob]:
         params = [a.arg for a in k.node.args.args]
         te = C.atom(('n', params[3]))
         try:
-            paths = _paths(e, k, [it for it in post if it[0] != 'return'])
+            paths = _paths(e, k, [it for it in post if it[0] != 'return'], returns=True)
         except Exception as ex:
             out.append(inconclusive(rule, f"{k.name}: epilogue paths", k.loc(), str(ex)))
             continue
+        ret_top = next((it for it in post if it[0] == 'return'), None)
+
+        def returned_upper(env):
+            # upper bound of the returned prefix of the time axis, when the return expression spells the trimming itself
+            ri = env.returned or ret_top
+            if ri is None or ri[1] is None:
+                return None
+            try:
+                rv = C.canon_expr(ri[1], env)
+            except C.CanonError:
+                return None
+            sa = C.single_atom(rv) if C.is_poly(rv) else rv
+            comps = list(sa[1]) if sa is not None and sa[0] == 'tuple' else [rv]
+            for comp in comps:
+                ca = C.single_atom(comp) if C.is_poly(comp) else comp
+                if ca is not None and ca[0] == 'sub' and isinstance(ca[2], tuple) and ca[2] and ca[2][0] == 'slice' \
+                        and ca[1] == ('n', ret[0]):
+                    return ca[2][2]
+            return None
         t = (f"{k.name} ({k.path}): after the scan the time axis ends with exactly one t_end: if the last emitted breakpoint equals t_end the "
              f"running index steps back, otherwise t_end is stored at the running index")
         good = len(paths) == 2
@@ -339,8 +358,12 @@ def _epilogue_trim(ctx, kernels, rule) -> List[Ob]:
                     continue
                 c = cnt[0]
                 want_cond = C.mk_cmp('eq', C.atom(('sub', ('n', ret[0]), C.sub(C.atom(('n', c)), C.ONE))), te)
+                hi = returned_upper(env)
                 if is_eq:
-                    good &= eqc[0] == want_cond and not tst and C.to_poly(env.get(c)) == C.sub(C.atom(('n', c)), C.ONE)
+                    # (the step back may be spelled in the returned slices instead: `return st[:index], ...`)
+                    good &= eqc[0] == want_cond and not tst and \
+                        (C.to_poly(env.get(c)) == C.sub(C.atom(('n', c)), C.ONE)
+                         or (hi is not None and C.to_poly(env.get(c)) == C.atom(('n', c)) and hi == C.atom(('n', c))))
                 else:
                     good &= C.mk_not(eqc[0]) == want_cond and len(tst) == 1 and tst[0][1] == C.atom(('n', c)) and tst[0][2] == te and \
                         C.to_poly(env.get(c)) == C.atom(('n', c))
@@ -1287,6 +1310,11 @@ def _layer_index_precond(ctx, rid) -> List[Ob]:
     return r_index_preconditions(ctx, rid)
 
 
+def _layer_pair_values(ctx, rid) -> List[Ob]:
+    from .rules_pairvalues import r_pair_value_providers
+    return r_pair_value_providers(ctx, rid)
+
+
 def _layer_isi_lengths(ctx, rid) -> List[Ob]:
     return [Ob(rid, o.title, o.status, o.where, o.detail, o.key, o.construct, o.extra)
             for o in RM.r15_4_threshold_definition(ctx, 'R15.4', 'R08.2') if o.rule == 'R15.4']
@@ -1331,6 +1359,10 @@ _CHAIN_TXT = {
     'merge_idiom': ("{rid} (=R01.1/R02.1/R03.1) the cursor-merge idiom of every kernel (lemma L1: the loop bound is the number of "
                     "spikes of both trains as given - no spike is set aside in front of the loop -, strict three-way comparison, "
                     "exclusive guards, single increments): a kernel that drops or doubles an event at one edge breaks the mirror image."),
+    'pair_values': ("{rid} the private providers of the pooled pair (summed profile values, summed multiplicities) of SPIKE-Sync and "
+                    "spike train order return that pair as the kernel / the bivariate profile's integral computed it on every path: the "
+                    "multivariate scalar is the ratio of the totals of exactly these pairs (a substituted pair such as (1, 1) for a silent "
+                    "pair changes the pooled value although every two-train call still looks right)."),
     'class_ops': ("{rid} (=R09.6/R09.9) mul_scalar scales exactly the value arrays by the factor, add() is the definition's sum of two "
                   "functions: multivariate profiles are built with these two operations."),
 }
@@ -1371,12 +1403,14 @@ _CHAINS = {
             ('R04.15', 'guards', lambda c: _layer_guards(c, 'R04.15')),
             ('R04.16', 'profile_ctor', lambda c: _layer_profile_ctor(c, 'R04.16', (_DIR,))),
             ('R04.17', 'index_precond', lambda c: _layer_index_precond(c, 'R04.17')),
-            ('R04.18', 'isi_lengths', lambda c: _layer_isi_lengths(c, 'R04.18'))],
+            ('R04.18', 'isi_lengths', lambda c: _layer_isi_lengths(c, 'R04.18')),
+            ('R04.19', 'pair_values', lambda c: _layer_pair_values(c, 'R04.19'))],
     'C05': [('R05.10', 'class_ops', lambda c: _layer_class_ops(c, 'R05.10')),
             ('R05.11', 'reconcile', lambda c: _layer_reconcile(c, (_ISI, _SPK, _SYN, _DIR), 'R05.11')),
             ('R05.12', 'plumbing', lambda c: _plumbing(c, (_ISI, _SPK, _SYN, _DIR), 'R05.12')),
             ('R05.13', 'profile_ctor', lambda c: _layer_profile_ctor(c, 'R05.13')),
-            ('R05.14', 'aux', lambda c: _nonempty_aux(c, 'R05.14'))],
+            ('R05.14', 'aux', lambda c: _nonempty_aux(c, 'R05.14')),
+            ('R05.15', 'pair_values', lambda c: _layer_pair_values(c, 'R05.15'))],
     'C06': [('R06.11', 'plumbing', lambda c: _plumbing(c, (_ISI, _SPK, _SYN), 'R06.11')),
             ('R06.12', 'class_ops', lambda c: _layer_class_ops(c, 'R06.12')),
             ('R06.13', 'reconcile', lambda c: _layer_reconcile(c, (_ISI, _SPK, _SYN), 'R06.13')),
@@ -1384,7 +1418,8 @@ _CHAINS = {
             ('R06.15', 'profile_ctor', lambda c: _layer_profile_ctor(c, 'R06.15', (_ISI, _SPK, _SYN))),
             ('R06.16', 'isi_lengths', lambda c: _layer_isi_lengths(c, 'R06.16')),
             ('R06.17', 'defaults', lambda c: _layer_defaults(c, 'R06.17')),
-            ('R06.18', 'aux', lambda c: _nonempty_aux(c, 'R06.18'))],
+            ('R06.18', 'aux', lambda c: _nonempty_aux(c, 'R06.18')),
+            ('R06.19', 'pair_values', lambda c: _layer_pair_values(c, 'R06.19'))],
     'C07': [('R07.10', 'avrg', lambda c: _class_averages(c, 'R07.10')),
             ('R07.11', 'reconcile', lambda c: _layer_reconcile(c, (_ISI, _SPK, _SYN, _DIR), 'R07.11')),
             ('R07.12', 'discrete_defs', lambda c: _layer_discrete_defs(c, 'R07.12')),
@@ -1425,7 +1460,8 @@ _CHAINS = {
             ('R14.11', 'guards', lambda c: _layer_guards(c, 'R14.11')),
             ('R14.12', 'isi_lengths', lambda c: _layer_isi_lengths(c, 'R14.12')),
             ('R14.13', 'class_ops', lambda c: _layer_class_ops(c, 'R14.13')),
-            ('R14.14', 'avrg', lambda c: _class_averages(c, 'R14.14'))],
+            ('R14.14', 'avrg', lambda c: _class_averages(c, 'R14.14')),
+            ('R14.15', 'pair_values', lambda c: _layer_pair_values(c, 'R14.15'))],
     'C16': [('R16.6', 'plumbing', lambda c: _plumbing(c, (_SYN, _DIR), 'R16.6')),
             ('R16.7', 'defaults', lambda c: _layer_defaults(c, 'R16.7')),
             ('R16.8', 'reconcile', lambda c: _layer_reconcile(c, (_SYN, _DIR), 'R16.8')),
